@@ -22,8 +22,8 @@
 #
 # Oracle (from the statement):
 #   * after the word_size-th, 2*word_size-th, ... sample edge of a transaction exactly one word_complete strobe must
-#     appear before the next sample edge / next CS assertion (SCK periods < 4 cycles: at the latest in the cycle of the
-#     following word's last sample edge - the statement fixes no latency, and a registered report needs 2 cycles), with word_in == the word sent (bits in the configured
+#     appear, at the latest in the cycle of the following word's last sample edge / before the next CS assertion (the
+#     statement fixes no latency; reports stay in order and one per word), with word_in == the word sent (bits in the configured
 #     order); a strobe at any other time, or a second one, is a violation; an aborted partial word is not reported;
 #   * CPHA=1 (data changes on the leading edge): around every sample edge (last cycle before - only if the active phase
 #     is >= 2 cycles, a registered output needs one cycle after the leading edge - and first cycle after) SDO
@@ -82,7 +82,7 @@ class SpiSpec(Spec):
         self.cpol, self.cpha, self.msb, self.h = cfg["cpol"], cfg["cpha"], cfg["msb_first"], cfg["h"]
         self.ha, self.hb = cfg.get("ha", self.h), cfg.get("hb", self.h)      # phase before / after the sample edge
         self.hs = max(2, self.ha, self.hb)                                   # CS set-up and hold
-        self.loose = self.ha + self.hb < 4                                   # report deadline, see header
+        self.loose = True         # report deadline = the following word's last sample edge for every clock (see header)
         self.narrow = cfg.get("narrow", False)
         self.cs_offsets = bool(cfg.get("cs_offsets"))
         self.cs_on = 0 if cfg.get("cs_idles_high") else 1
@@ -151,7 +151,7 @@ class SpiSpec(Spec):
                 "a word whose last sample edge happened while CS was active must be reported however soon CS is released afterwards (by the next CS assertion)",
                 "SDI valid at least one system cycle either side of the sample edge ('narrow' configs drive the complement elsewhere)",
                 "word_out changes only while CS is inactive or at the end of the first bit period of a word (>= 3 cycles after the previous word's last sample edge); the value present at a word's last sample edge is the one expected back in the following word",
-                "word_complete must strobe before the next sample edge or the next CS assertion (SCK period < 4 cycles: at the latest in the cycle of the following word's last sample edge); no exact latency demanded",
+                "word_complete must strobe at the latest in the cycle of the following word's last sample edge, or before the next CS assertion (>= 6 cycles after the last sample edge); no exact latency demanded",
                 "msb_first=False: SDO order may be either MSB-first (statement) or LSB-first (configured order), consistently"]
 
     # -- one system cycle with the monitor
